@@ -228,6 +228,65 @@ def run_collapse_keep(ctx):
     ctx.flush()
 
 
+def history_befores(spec):
+    """every EARLIER state (kind, spec_before) from which the same table object reaches `spec` by one change a user can make between
+    two renders: an option set, a column attribute or header / footer replaced, a cell replaced, a row or a column added"""
+    import copy
+
+    def base():
+        b = copy.deepcopy({k: v for k, v in spec.items() if k not in ("pre", "avail")})
+        return b
+
+    out = []
+    o = spec["opts"]
+    for k in ("pad_edge", "show_header", "show_footer", "show_edge", "collapse_padding", "show_lines", "expand"):
+        b = base()
+        b["opts"][k] = not o.get(k, lib_table.OPT_DEFAULTS[k])
+        out.append((k, b))
+    for k, alts in (("padding", [(0, 1), (0, 0), (1, 2), (0, 3, 0, 1)]), ("box", [None, "ASCII", "HEAVY_HEAD", "MINIMAL"]),
+                    ("min_width", [None, 9, 30]), ("width", [None, 14]), ("leading", [0, 1])):
+        cur = o.get(k, lib_table.OPT_DEFAULTS[k])
+        for alt in alts:
+            if alt != (tuple(cur) if isinstance(cur, list) else cur):
+                b = base()
+                b["opts"][k] = alt
+                out.append((k, b))
+                break
+    early = [i for i, c in enumerate(spec["cols"]) if not c.get("late")]
+    for i in early[:2] + early[-1:]:
+        for k, alt in (("header", ("s", "other header text")), ("footer", ("s", "ff")), ("min_width", 7), ("max_width", 3), ("width", 5), ("no_wrap", True)):
+            b = base()
+            if b["cols"][i].get(k) == alt:
+                continue
+            b["cols"][i][k] = alt
+            if k in ("min_width", "max_width", "width", "no_wrap") and spec["cols"][i].get(k) not in (None, False):
+                b["cols"][i].pop(k)
+            out.append(("column." + k, b))
+    if spec["rows"] and not spec.get("has_extra"):
+        b = base()
+        b["rows"] = b["rows"][:-1]
+        b["cols"] = [c for c in b["cols"] if not c.get("late")]     # a column added after the rows comes after this row too
+        out.append(("add_row", b))
+        b = base()
+        r = b["rows"][0]
+        if r["cells"]:
+            r["cells"][0] = ("s", "a replaced cell with several words") if r["cells"][0] != ("s", "a replaced cell with several words") else ("s", "z")
+            out.append(("cell", b))
+    if spec["cols"] and spec["cols"][-1].get("late"):
+        b = base()
+        b["cols"] = b["cols"][:-1]
+        out.append(("add_column", b))
+    return out
+
+
+def with_history(rng, spec):
+    """spec, to be rendered as the SECOND render of an object first rendered in a neighbouring state (same or another width)"""
+    if spec.get("has_extra") or spec.get("via_grid") or not spec["cols"]:
+        return spec
+    kind, before = rng.choice(history_befores(spec))
+    return dict(spec, pre={"kind": kind, "spec": before, "avail": spec["avail"] if rng.random() < 0.6 else max(1, spec["avail"] + rng.choice([-5, -2, 3, 9]))})
+
+
 def widths_for(rng, spec, count, dense):
     smin = structural_min(spec)
     nat = natural_width(spec)
@@ -398,6 +457,19 @@ def table_jobs(ctx):
         for ov in ({"box": "ASCII"}, {"box": None, "show_header": False}, {"box": "SQUARE", "show_lines": True}):
             for w in (12, 30, 50):
                 misc.append({"cols": cols, "rows": rows, "opts": dict(ov), "has_extra": True, "avail": w})
+    # RE-RENDER histories: the same Table object rendered, changed in one respect, rendered again (same width and another one): the
+    # second render must be what a freshly built table in the final state renders, and satisfy every clause of the property
+    for hcols, hrows, hopts in (
+        ([{"header": ("s", "h"), "footer": ("s", "f"), "overflow": "fold"}, {"header": ("s", "k"), "footer": ("s", "g"), "overflow": "fold"}],
+         [{"cells": [("s", "a"), ("s", "b")], "end_section": False}, {"cells": [("s", "c"), ("s", "d")], "end_section": False}], {"box": "ASCII"}),
+        ([{"header": ("s", "name"), "footer": ("s", ""), "overflow": "fold"}, {"header": ("s", "q"), "footer": ("s", ""), "overflow": "fold", "justify": "right"},
+          {"header": ("s", "late"), "footer": ("s", "x"), "overflow": "fold", "late": True}],
+         [{"cells": [("s", "some words here"), ("s", "1")], "end_section": True}], {"box": None, "pad_edge": False, "padding": (0, 2)}),
+    ):
+        final = {"cols": hcols, "rows": hrows, "opts": hopts}
+        for kind, before in history_befores(final):
+            for w0, w1 in ((20, 20), (9, 20), (20, 9), (30, 12)):
+                misc.append(dict(final, avail=w1, pre={"kind": kind, "spec": before, "avail": w0}))
     # styles: table / border / header / footer / row_styles / per-row / per-column styles, cells with their own styles and control
     # segments, a whitespace-divider box (background rule), rows with FEWER cells than columns, show_lines with end_section
     scols = [{"header": ("s", "name"), "footer": ("st", "sum", "underline"), "overflow": "fold", "style": "cyan", "header_style": "red"},
@@ -450,7 +522,7 @@ def table_jobs(ctx):
                 o["min_width"] = rng.choice([0, 5, 12, 25, 50])
             if rng.random() < 0.15:
                 o["width"] = rng.choice([structural_min(s), structural_min(s) + 3, 12, 25, 40])
-            specs += [dict(s, avail=w) for w in widths_for(rng, s, 3, dense=3)]
+            specs += [(with_history(rng, dict(s, avail=w)) if rng.random() < 0.3 else dict(s, avail=w)) for w in widths_for(rng, s, 3, dense=3)]
             if rng.random() < 0.15:   # far below the structural minimum: nothing may raise or go negative there either
                 specs.append(dict(s, avail=rng.randint(0, max(1, structural_min(s)))))
         jobs.append((64, FLAGS, specs))
@@ -559,7 +631,9 @@ MANIFEST = {
     "character on ~5k (quick; committed evidence/C07.json, seed 2: 4,955 tables rendered and 4,955 measured) / ~50k (thorough) generated tables (0..6 declared columns, 0..8 rows, all table and column options, nested "
     "Panel/Table/Padding cells, wide and zero-width characters, ragged and add_row-created columns, nested folding tables, over-long wide words; rendered WITH varying incoming ConsoleOptions "
     "(no_wrap / justify / overflow / highlight), the cell options being derived from the documented rule 'the column's own setting wins', "
-    "title / caption inheriting overflow / no_wrap) with each real cell's oracle "
+    "title / caption inheriting overflow / no_wrap; about a fifth of the tables are RE-RENDERS - the same object rendered, changed "
+    "in one respect (an option, a column attribute, a header / footer / cell replaced, add_row, add_column), rendered again at the same or "
+    "another width: the second render must equal a freshly built table's and is what the model and every clause are compared with) with each real cell's oracle "
     "tabulated on real rich for all widths 0..W; `_get_cells` padding rules, `_get_padding_width` and every box row builder compared "
     "exhaustively; the theorems' executable statements evaluated on rich's own output.",
     "note": "PARTIAL: exact expansion (`table_expand_exact_*`) is proved for free columns (no width/min_width/no_wrap: the statement's "
